@@ -150,6 +150,12 @@ TIES = {
     "decode": {"sources": ["pyjelly/parse/decode.py"], "gen": "DecodeGen", "tie": "DecodeTie",
                "needs": ["lookup_enc", "options", "encode"], "needs_gen": ["lookup_dec"],
                "theorems": ["source_options_from_frame_is_model"]},
+    # the Decoder class over the adapters as the model has them: decode_term (recursion on fuel), decode_row (dispatch on the
+    # type of the row), iter_rows (the rows of a frame), __init__; and that the premises can be met for every row
+    "decoder": {"sources": ["pyjelly/parse/decode.py"], "unit": "decode", "gen": "DecodeGen", "tie": "DecoderTie",
+                "needs": ["lookup_enc", "lookup_dec", "options", "encode", "decode"],
+                "theorems": ["tie_dec_term", "source_decode_row_is_model", "source_iter_rows_is_model", "source_decoder_init_is_model",
+                             "owner_msg_reads", "source_iter_rows_on_built_frame"]},
     # property C05 itself, about the translated writer and reader coupled as the wire couples them (no model in the statement)
     "c05_source": {"sources": ["pyjelly/serialize/lookup.py", "pyjelly/parse/lookup.py"], "unit": "lookup_enc", "gen": "LookupEncGen", "tie": "C05Source",
                    "needs": ["lookup_enc", "lookup_dec"], "props": ["C05"], "theorems": ["C05_source_mirror_all_histories"]},
